@@ -65,6 +65,19 @@ fn gen_value(r: &mut Rng) -> Value {
     }
 }
 
+/// `n` records of both kinds whose values are `lo..=hi` bytes each, as compact specs (bytes (fill + i*salt) mod 256);
+/// every record of the profile is large, so that whatever order the scan yields them in, a run of fewer than
+/// PAGE_SIZE rows carries megabytes
+fn gen_large_recs(r: &mut Rng, n: usize, lo: usize, hi: usize) -> Vec<Value> {
+    (0..n).map(|i| {
+        let k = if r.chance(1, 3) { 1 } else { 2 };
+        let c = *r.pick(&["c1", "c2", "big", ""]);
+        json!({"k": k, "c": c, "n": format!("{}#{}", r.pick(NAMES), i),
+               "v": {"fill": r.below(256), "salt": 1 + r.below(250), "len": lo + r.below(hi - lo + 1)},
+               "t": gen_tags(r), "e": null})
+    }).collect()
+}
+
 /// `n` records with pairwise distinct (kind, category, name); `expiring`: some already expired, some expiring tomorrow
 fn gen_recs(r: &mut Rng, n: usize, expiring: bool) -> Vec<Value> {
     let mut seen = BTreeSet::new();
@@ -224,6 +237,32 @@ pub fn gen(r: &mut Rng, thorough: bool, count: Option<usize>) -> Vec<Value> {
         let dst = json!({"default": "t0", "profiles": [{"name": "t0", "recs": [shadow]}], "set_default": null, "remove": []});
         push(&mut out, case(0, page, src.clone(), dst, json!({"op": "copy_profile", "from": src["profiles"][0]["name"], "to": "t0", "same": false, "method": "raw"}), Value::Null, false));
     }
+    // (i) large values: a run of fewer than PAGE_SIZE rows that carries well over a MiB (few records of 120-400 KiB),
+    //     and more than a page of rows whose first page already does (PAGE_SIZE+ records of 40-70 KiB); both through
+    //     copy_profile and the whole-store copies, both kinds, a second small profile alongside
+    for i in 0..(6 * mult) {
+        let mut rr = r.fork();
+        let few = i % 2 == 0;
+        let recs = if few {
+            let n = 6 + rr.below(7);
+            gen_large_recs(&mut rr, n, 120 * 1024, 400 * 1024)
+        } else {
+            let n = page + 1 + rr.below(8);
+            gen_large_recs(&mut rr, n, 40 * 1024, 70 * 1024)
+        };
+        let small = gen_recs(&mut rr, 3, false);
+        let src = json!({"default": "p0", "profiles": [{"name": "p0", "recs": recs}, {"name": "p1", "recs": small}], "set_default": null, "remove": []});
+        let method = methods_q[i % 2];
+        let c = match i % 3 {
+            0 => {
+                let dst = json!({"default": "t0", "profiles": [{"name": "t0", "recs": []}], "set_default": null, "remove": []});
+                case(0, page, src, dst, json!({"op": "copy_profile", "from": "p0", "to": if i % 2 == 0 { "t0" } else { "fresh-profile" }, "same": false, "method": method}), Value::Null, rr.chance(1, 2))
+            }
+            1 => case(0, page, src, Value::Null, json!({"op": "copy_to", "method": method, "recreate": true, "file": true}), Value::Null, rr.chance(1, 2)),
+            _ => case(0, page, src, Value::Null, json!({"op": "copy_store", "method": method, "recreate": true, "file": rr.chance(1, 2)}), Value::Null, rr.chance(1, 2)),
+        };
+        push(&mut out, c);
+    }
     // (h) Indy wallets
     push(&mut out, json!({"kind": "c18:fixture", "id": 0}));
     let kdfs_q = ["RAW", "RAW", "RAW", "ARGON2I_INT", "RAW", "RAW", "ARGON2I_MOD", "RAW", "RAW", "RAW"];
@@ -334,7 +373,22 @@ fn sort_recs(v: Value) -> Value {
     Value::Array(a)
 }
 
+thread_local! { static DUMP_NOTES: std::cell::RefCell<Vec<Value>> = std::cell::RefCell::new(vec![]); }
+
+/// every live record of a profile through `fetch_all` of a plain session (all kinds): unlike a `Scan` it does not
+/// depend on how the rows are cut into pages, so a paging fault cannot hide in the dump of both sides
+fn dump_profile_fetch_all(b: &AnyBackend, profile: &str) -> Result<Value, askar_storage::Error> {
+    block_on(async {
+        let mut s = b.session(Some(profile.to_string()), false)?;
+        let rows = s.fetch_all(None, None, None, None, None, false, false).await;
+        s.close(false).await.ok();
+        drop(s);
+        Ok(Value::Array(rows?.iter().map(|e| Rec::from_entry(e).to_json()).collect()))
+    })
+}
+
 /// {"default": name, "profiles": [{"name", "recs": [...sorted by (kind, category, name)]} sorted by name]}
+/// The records are read with `fetch_all`; the paged `Scan` dump (`dump_profile`) must say the same.
 fn dump_store(b: &AnyBackend) -> Value {
     let (default, mut names) = block_on(async {
         (b.get_default_profile().await.map(Value::String).unwrap_or_else(|e| jerr(&e)),
@@ -342,7 +396,13 @@ fn dump_store(b: &AnyBackend) -> Value {
     });
     names.sort_by(|a, b| a.as_bytes().cmp(b.as_bytes()));
     let profiles: Vec<Value> = names.iter().map(|n| {
-        let recs = match dump_profile(b, n) { Ok(v) => sort_recs(v), Err(e) => jerr(&e) };
+        let recs = match dump_profile_fetch_all(b, n) { Ok(v) => sort_recs(v), Err(e) => jerr(&e) };
+        let scanned = match dump_profile(b, n) { Ok(v) => sort_recs(v), Err(e) => jerr(&e) };
+        if scanned != recs {
+            let (ns, nf) = (scanned.as_array().map_or(0, |a| a.len()), recs.as_array().map_or(0, |a| a.len()));
+            DUMP_NOTES.with(|d| d.borrow_mut().push(json!({"sig": format!("dump:scan-differs-from-fetch_all:{}", if ns < nf { "scan-lost" } else if ns > nf { "scan-extra" } else { "changed" }),
+                                                           "profile": n, "scan": ns, "fetch_all": nf})));
+        }
         json!({"name": n, "recs": recs})
     }).collect();
     json!({"default": default, "profiles": profiles})
@@ -409,6 +469,7 @@ fn exec_copy(case: &Value, tag: &str) -> Value {
     let mut oracle: Vec<Value> = vec![];
     let mut feat: BTreeMap<String, u64> = BTreeMap::new();
     let page = case["page"].as_u64().unwrap_or(32) as usize;
+    DUMP_NOTES.with(|d| d.borrow_mut().clear());
 
     // source
     let (src, src_path) = provision(src_file, src_spec["default"].as_str().unwrap_or(""), "", &format!("c18s-{}", tag));
@@ -527,6 +588,14 @@ fn exec_copy(case: &Value, tag: &str) -> Value {
         for x in recs.as_array().unwrap() { kinds.insert(x["k"].as_i64().unwrap_or(0)); if !x["t"].as_array().unwrap().is_empty() { *feat.entry("tagged".into()).or_insert(0) += 1; } }
     }
     if kinds.len() == 2 { *feat.entry("both-kinds".into()).or_insert(0) += 1; }
+    // a profile in which some PAGE_SIZE-1 records together carry >= 1 MiB of values
+    for p in src_spec["profiles"].as_array().unwrap() {
+        let mut lens: Vec<u64> = p["recs"].as_array().unwrap().iter().map(|x| x["v"]["len"].as_u64().unwrap_or_else(|| x["v"].as_str().map_or(0, |s| s.len() as u64 / 2))).collect();
+        lens.sort_unstable_by(|a, b| b.cmp(a));
+        let top: u64 = lens.iter().take(page.saturating_sub(1)).sum();
+        if top >= 1 << 20 { *feat.entry("profiles-mib-in-short-page".into()).or_insert(0) += 1; }
+        if top >= 1 << 20 && lens.len() > page { *feat.entry("profiles-mib-and-multi-page".into()).or_insert(0) += 1; }
+    }
     let spec_expired = src_spec["profiles"].as_array().unwrap().iter().flat_map(|p| p["recs"].as_array().cloned().unwrap_or_default()).filter(|x| x["e"].as_i64().map_or(false, |e| e < 0)).count();
     if spec_expired > 0 { *feat.entry("expired-in-source".into()).or_insert(0) += 1; }
 
@@ -617,6 +686,7 @@ fn exec_copy(case: &Value, tag: &str) -> Value {
         oracle.push(json!({"sig": format!("{}:no-target-to-inspect", op)}));
     }
 
+    DUMP_NOTES.with(|d| oracle.extend(d.borrow_mut().drain(..)));
     json!({"out": {"res": res, "dst": dst_dump, "src": src_after}, "oracle": oracle, "feat": feat})
 }
 
@@ -860,6 +930,7 @@ fn exec_indy(case: &Value, tag: &str) -> Value {
     *feat.entry("items".into()).or_insert(0) += items.len() as u64;
     *feat.entry("tags".into()).or_insert(0) += items.iter().map(|i| i["t"].as_array().map_or(0, |a| a.len()) as u64).sum::<u64>();
     let out_dump = json!({"default": dump["default"], "profiles": dump["profiles"]});
+    DUMP_NOTES.with(|d| oracle.extend(d.borrow_mut().drain(..)));
     json!({"out": {"res": res, "dump": if dump.get("open").is_some() { dump } else { out_dump }}, "oracle": oracle, "feat": feat})
 }
 
@@ -884,6 +955,7 @@ fn exec_fixture(case: &Value, tag: &str) -> Value {
         _ => oracle.push(json!({"sig": "fixture:no-frozen-dump"})),
     }
     cleanup(&Some(path));
+    DUMP_NOTES.with(|d| oracle.extend(d.borrow_mut().drain(..)));
     let n = independent.as_ref().ok().and_then(|v| v.as_array().map(|a| a.len())).unwrap_or(0);
     json!({"out": {"res": res, "dump": out_dump}, "oracle": oracle, "feat": {"fixture": 1, "fixture-items": n}})
 }
